@@ -5,6 +5,12 @@ CONSTANTS
   Lens = {100, 501, 511, 512, 513, 523, 700, 1221, 1222, 1232, 1233, 1243, 4085, 4096, 4097, 5000, 20000}
   OptLens = {0, 11, 15, 300, 480}
   ROpts = {"none", "keepalive", "several"}
+  Recipes = {"plain"}
+  Routes = {"mk"}
+  ALays = {"none"}
+  Tgts = {"vec"}
+  SvcRoutes = {"impl"}
+  EOns = {TRUE}
   QLens = {5, 17, 259}
 SPECIFICATION Spec
 INVARIANT Emit
